@@ -39,6 +39,8 @@ def client_call_spec(what: str, v: int, bad: bool = False) -> t.Tuple[str, t.Dic
         return meth, dict(kw, **{field: UNENCODABLE}), exp
     s = _lib()
     if what == "bind":
+        if v == 9:  # present but empty credentials
+            return "bind_sasl", {"mechanism": "EXTERNAL", "cred": b""}, {"kind": "bindRequest", "controls": [], "version": 3, "name": "", "auth": ("sasl", "EXTERNAL", b"")}
         v %= 5
         if v == 0:
             return "bind_simple", {}, {"kind": "bindRequest", "controls": [], "version": 3, "name": "", "auth": ("simple", "")}
@@ -54,7 +56,7 @@ def client_call_spec(what: str, v: int, bad: bool = False) -> t.Tuple[str, t.Dic
             {"kind": "bindRequest", "controls": [("generic", "1.2.3", True, b"v")], "version": 3, "name": "", "auth": ("simple", "")},
         )
     if what == "search":
-        v %= 4
+        v = v if v in (8, 9) else v % 4
         base = {"kind": "searchRequest", "controls": [], "base": "", "scope": 2, "deref": 0, "size": 0, "time": 0, "typesOnly": False,
                 "filter": ("present", "objectClass"), "attributes": []}
         if v == 0:
@@ -64,6 +66,11 @@ def client_call_spec(what: str, v: int, bad: bool = False) -> t.Tuple[str, t.Dic
                       filter=s.FilterEquality("cn", b"a*b"), attributes=["cn", "*"])
             return "search_request", kw, dict(base, base="dc=x", scope=1, deref=3, size=10, time=20, typesOnly=True,
                                               filter=("eq", "cn", b"a*b"), attributes=["cn", "*"])
+        if v in (8, 9):
+            # every argument given explicitly with its falsy value (scope BASE = 0, NEVER = 0, limits 0, False, [], "")
+            kw = dict(base_object="", scope=s.SearchScope.BASE if v == 8 else 0, dereferencing_policy=s.DereferencingPolicy.NEVER if v == 8 else 0,
+                      size_limit=0, time_limit=0, types_only=False, filter=s.FilterPresent("objectClass"), attributes=[], controls=[])
+            return "search_request", kw, dict(base, scope=0)
         if v == 2:
             return ("search_request", {"controls": [s.PagedResultControl(False, 100, b"")]},
                     dict(base, controls=[("paged", False, 100, b"")]))
@@ -73,6 +80,8 @@ def client_call_spec(what: str, v: int, bad: bool = False) -> t.Tuple[str, t.Dic
         if v == 11:
             big = b"\xa5" * 70000  # a message larger than 64 KiB (buffers sometimes switch strategy at such sizes)
             return "extended_request", {"name": "1.2.840", "value": big}, {"kind": "extendedReq", "controls": [], "name": "1.2.840", "value": big}
+        if v == 9:  # present but empty value
+            return "extended_request", {"name": "1.2.9", "value": b""}, {"kind": "extendedReq", "controls": [], "name": "1.2.9", "value": b""}
         v %= 3
         if v == 0:
             return "extended_request", {"name": "1.3.6.1.4.1.1466.20037"}, {"kind": "extendedReq", "controls": [], "name": "1.3.6.1.4.1.1466.20037", "value": None}
@@ -104,7 +113,7 @@ def server_call_spec(kind: str, mid: int, code: int, v: int, bad: bool = False) 
         rkw.update(matched_dn="dc=m", diagnostics_message="diag " * 30)
         res = {"code": code, "matched": "dc=m", "diag": "diag " * 30, "referral": []}
     if kind == "bind":
-        creds = b"srv" if v % 3 == 2 else None
+        creds = b"" if v == 9 else b"srv" if v % 3 == 2 else None
         return "bind_response", dict(rkw, message_id=mid, sasl_creds=creds), {"kind": "bindResponse", "id": mid, "controls": [], "result": res, "sasl": creds}, None
     if kind == "entry" and v == 11:
         big = b"\x5a" * 70000
@@ -121,7 +130,7 @@ def server_call_spec(kind: str, mid: int, code: int, v: int, bad: bool = False) 
         return "search_result_done", dict(rkw, message_id=mid), {"kind": "searchResDone", "id": mid, "controls": [], "result": res}, None
     if kind == "extended":
         name = "1.2.9" if v % 3 == 1 else None
-        value = b"val" if v % 3 == 2 else None
+        value = b"" if v == 9 else b"val" if v % 3 == 2 else None
         return ("extended_response", dict(rkw, message_id=mid, name=name, value=value),
                 {"kind": "extendedResp", "id": mid, "controls": [], "result": res, "name": name, "value": value}, name)
     if kind == "notice":
